@@ -18,7 +18,8 @@ func init() {
 			"(b) no control-flow sentinel reaches them (error-kind inference with edge refinement, sentinel scope agreement between parser and evaluator); " +
 			"(c) every explicit panic site is discharged by a recognised unreachability argument; (d) the enumerated partial operations are guarded; " +
 			"(e) the CLI maps every error to a non-zero exit with a diagnostic." +
-			" (f) every explicit panic(...) statement of the module is shown unreachable by a re-derived argument (exhaustive enum switches over the tags a token can carry given its construction sites, the constructor domain of NewValue, co-assignment of ParentObj with Str/Num, the frame balance); every index / slice expression and every payload dereference of a Value in package lang is guarded or covered by a frozen per-symbol exception; every pushed frame is one deeper than its parent so recursion through any frame kind is stopped by the limit.",
+			" (f) every explicit panic(...) statement of the module is shown unreachable by a re-derived argument (exhaustive enum switches over the tags a token can carry given its construction sites, the constructor domain of NewValue, co-assignment of ParentObj with Str/Num, the frame balance); every index / slice expression and every payload dereference of a Value in package lang is guarded or covered by a frozen per-symbol exception; every pushed frame is one deeper than its parent so recursion through any frame kind is stopped by the limit." +
+			" Every strings.Repeat count is non-negative by constant or guard; for-in over an array iterates with Go's range.",
 		notDecided: "absence of every implicit Go panic (lexer cursor indexing, deep recursion), termination.",
 	})
 }
